@@ -72,4 +72,10 @@ def conditions(tier, seed):
                                         '<=%d' % maxn if nx is None else '=%d' % nx, U - 1, maxm, ot, op),
                                     case_split=['cx', 'cy (indices into the tables of all duplicate-free sequences)'],
                                     twin=(nx in (None, 2))))
+    for op in ('ior', 'iand', 'isub', 'ixor', 'or', 'and', 'sub', 'xor', 'ctor'):
+        for ot in (('list', 'tuple') if tier == 'quick' else ('list', 'tuple', 'generator')):
+            out.append(Cond('step_dups_%s_%s' % (op, ot), 'c17_step.py', dict(op=op, cls='OrderedSet', otype=ot, U=U, maxn=min(maxn, 3), maxm=maxm, dups=1),
+                            func='check_binary', timeout=t,
+                            bound='xs dup-free; ys a %s of length 2..3 over 3 elements that lists an element more than once; one %s: the result is that of the SET ys denotes' % (ot, op),
+                            case_split=['cx', 'cy'], twin=False))
     return out
